@@ -85,10 +85,39 @@ def noop_node(rng, nprng, kind, size, channels, in_run):
     return n
 
 
+def enabled_effects(n):
+    fx = n.get("effects")
+    if not fx or not fx.get("master", True):
+        return []
+    return [e["kind"] for e in fx.get("items", []) if e.get("enabled", True)]
+
+
 def is_noop(n, kind, size):
+    """is the node a no-op of that kind BY THE PROPERTY'S TEXT (hidden / fully transparent / zero opacity / outside), whatever
+    effects it carries?  (`transparent+stroke-effect` is the known finding: see findings.d/C13.json)"""
     W, H = size
-    if n["t"] != "pixel" or n.get("knockout"):
+    if n.get("knockout"):
         return False
+    if kind == "adjustment":
+        return n["t"] == "adjustment"
+    fxk = enabled_effects(n)
+    if n["t"] == "fill":
+        if kind == "hidden":
+            return not n.get("visible", True)
+        if kind == "zero-opacity":
+            return n.get("opacity") == 0
+        if kind == "masked-out":
+            mk = n.get("mask")
+            return bool(mk) and not mk.get("disabled") and mk.get("bg", 0) == 0 and not np.asarray(mk["data"]).any() and "stroke" not in fxk
+        return False
+    if n["t"] != "pixel":
+        return False
+    if kind == "transparent+stroke-effect":
+        return n.get("alpha") is not None and not np.asarray(n["alpha"]).any() and "stroke" in fxk
+    if kind in ("transparent", "masked-out") and "stroke" in fxk:
+        return False            # the stroke effect of a layer without any shape is drawn over its whole box (known finding)
+    if kind == "zero-fill" and fxk:
+        return False            # fill opacity does not apply to layer effects (by design, as in Photoshop)
     if kind == "hidden":
         return not n.get("visible", True)
     if kind == "transparent":
@@ -205,6 +234,14 @@ def check_law(doc_t, law, want_model=False):
     a_real = None
     W, H = doc_t["size"]
     canvas = (0, 0, W, H)
+    # the law under a custom layer_filter: {"hidden_ok": [names], "drop": [names]} or "all" (accept every layer)
+    fspec = law.get("filter")
+    lf = None
+    if fspec == "all":
+        lf = lambda layer: True
+    elif fspec:
+        lf = cc.name_filter(**fspec)
+    rc = lambda psd, **kw: cc.real_composite(psd, layer_filter=lf, **kw) if lf is not None else cc.real_composite(psd, **kw)
     try:
         if kind == "noop":
             nodes = find_named(doc_t["recipe"], "noop")
@@ -216,7 +253,7 @@ def check_law(doc_t, law, want_model=False):
                 out["invalid"] = True
                 return out
             psd_t = cc.build(doc_t)
-            a, b = cc.real_composite(psd_t), cc.real_composite(cc.build(base))
+            a, b = rc(psd_t), rc(cc.build(base))
             a_real = a
             if law["noop"] == "zero-opacity":
                 a = (a[0], b[1], a[2])          # the shape of a zero-opacity layer is still its shape (theorem: alpha and colour)
@@ -232,13 +269,13 @@ def check_law(doc_t, law, want_model=False):
                 out["invalid"] = True
                 return out
             psd_t = cc.build(doc_t)
-            a, b = cc.real_composite(psd_t), cc.real_composite(cc.build(base))
+            a, b = rc(psd_t), rc(cc.build(base))
             V = canvas
         elif kind == "viewport":
             V, ref = tuple(law["V"]), tuple(law["ref"])
             psd_t = cc.build(doc_t)
-            a = cc.real_composite(psd_t, viewport=V)
-            b = crop(cc.real_composite(psd_t, viewport=None if ref == canvas else ref), ref, V)
+            a = rc(psd_t, viewport=V)
+            b = crop(rc(psd_t, viewport=None if ref == canvas else ref), ref, V)
         elif kind == "compression":
             psd_t = cc.build(doc_t, compression=Compression[law["codec"]])
             a, b = cc.real_composite(psd_t), cc.real_composite(cc.build(doc_t))
@@ -268,6 +305,21 @@ def check_law(doc_t, law, want_model=False):
             tgt.top = tgt.top + law["dy"]
             a, b = cc.real_composite(psd_t), cc.real_composite(cc.save_reopen(psd_t))
             V = canvas
+        elif kind == "reopen-after-edit":
+            # an API edit of one layer (clipping flag, visibility, blend mode, opacity): the edited document in memory and its
+            # saved-and-reopened copy must composite the same
+            psd_t = cc.build(doc_t)
+            for top in psd_t:
+                if top.is_group():
+                    _ = top.bbox
+            _ = cc.real_composite(psd_t)            # whatever the compositor caches is cached before the edit
+            tgt = [l for l in psd_t.descendants() if l.name == law["target"]]
+            if len(tgt) != 1:
+                out["invalid"] = True
+                return out
+            apply_edit(tgt[0], law["edit"])
+            a, b = cc.real_composite(psd_t), cc.real_composite(cc.save_reopen(psd_t))
+            V = canvas
         else:
             raise ValueError(kind)
     except Exception as e:
@@ -280,8 +332,8 @@ def check_law(doc_t, law, want_model=False):
     out["mismatch"] = out["mismatch"] or cc.compare(a, b)
     out["range"] = cc.in_unit_interval(a)
     out["zero_alpha_colour"] = zero_alpha_colour_differs(a, b)
-    if want_model and np.asarray(a[1]).size:
-        xd = cc.XDoc(psd_t)
+    if want_model and np.asarray(a[1]).size and kind != "reopen-after-edit" and not has_fx(doc_t):
+        xd = cc.XDoc(psd_t, lf)
         pixels, reqs = xd.requests(V)
         out["model"] = {"pixels": pixels, "reqs": reqs, "V": V, "nch": xd.nch, "real": a if a_real is None else a_real}
         if kind == "viewport":
@@ -289,6 +341,21 @@ def check_law(doc_t, law, want_model=False):
             out["model"]["ref_reqs"] = xd.requests(tuple(law["ref"]), pixels=pixels)[1]
             out["model"]["hyp"] = all(_view_eq(n, V, tuple(law["ref"])) for n in xd.layers)
     return out
+
+
+def apply_edit(layer, edit):
+    from psd_tools.constants import BlendMode
+    k = edit["kind"]
+    if k == "clip":
+        layer.clipping_layer = bool(edit["value"])
+    elif k == "visible":
+        layer.visible = bool(edit["value"])
+    elif k == "blend":
+        layer.blend_mode = BlendMode[edit["value"]]
+    elif k == "opacity":
+        layer.opacity = int(edit["value"])
+    else:
+        raise ValueError(k)
 
 
 def _inter(a, b):
@@ -315,6 +382,22 @@ def wrap_still_whole(wrapped_recipe):
                     return False
                 return True
     return False
+
+
+def enclosing_group_has_boxed_effect(recipe, name, inside=False):
+    """is the node called `name` inside a group that carries an enabled gradient / pattern overlay (laid out over the group's box)?"""
+    for n in recipe:
+        if n.get("name") == name:
+            return inside
+        if n["t"] == "group":
+            here = inside or any(k in ("gradient", "pattern") for k in enabled_effects(n))
+            if any(m.get("name") == name for m in cc.walk(n["children"])):
+                return enclosing_group_has_boxed_effect(n["children"], name, here)
+    return False
+
+
+def has_fx(doc):
+    return any(n["t"] in ("fill", "adjustment") or n.get("effects") for n in cc.walk(doc["recipe"]))
 
 
 def eval_task(task):
@@ -400,25 +483,30 @@ def make_tasks(ctx, docs, per_doc_noop, per_doc_wrap, rng=None):
 # reporting
 # ------------------------------------------------------------------------------------------
 def law_json(task):
-    return {"doc": dict(task["doc_t"], recipe=cc.recipe_to_json(task["doc_t"]["recipe"])), "law": task["law"]}
+    import comp_fx
+    return {"doc": dict(task["doc_t"], recipe=comp_fx.recipe_to_json(task["doc_t"]["recipe"])), "law": task["law"]}
 
 
 def law_from_json(j):
-    return {"doc_t": dict(j["doc"], recipe=cc.recipe_from_json(j["doc"]["recipe"])), "law": j["law"]}
+    import comp_fx
+    return {"doc_t": dict(j["doc"], recipe=comp_fx.recipe_from_json(j["doc"]["recipe"])), "law": j["law"]}
 
 
 def law_prefix(law):
     k = law["kind"]
+    flt = "+layer-filter" if law.get("filter") else ""
     if k == "noop":
-        return f"C13/noop/{law['noop']}"
+        return f"C13/noop/{law['noop']}{flt}"
     if k == "wrap":
-        return "C13/passthrough-wrap"
+        return f"C13/passthrough-wrap{flt}"
     if k == "viewport":
-        return f"C13/viewport/{law['class']}"
+        return f"C13/viewport/{law['class']}{flt}"
     if k == "compression":
         return f"C13/compression/{law['codec']}"
     if law["kind"] == "reopen-after-move":
         return "C13/save-reopen-after-edit"
+    if law["kind"] == "reopen-after-edit":
+        return f"C13/save-reopen-after-edit/{law['edit']['kind']}"
     return "C13/save-reopen"
 
 
@@ -444,7 +532,13 @@ def report(ctx, task, res):
     r = check_law(small, law)
     if not bad(r):
         t2, r = task, res
-    feats = cc.feature_sig(base_doc(t2))
+    import comp_fx
+    feats = cc.feature_sig(base_doc(t2), sorted(comp_fx.fx_features(t2["doc_t"])))
+    if law["kind"] == "noop" and law["noop"] != "hidden" and enclosing_group_has_boxed_effect(t2["doc_t"]["recipe"], "noop"):
+        # root cause outside the compositing arithmetic: the box of a group is the union of the RECTANGLES of its visible
+        # children, and a gradient (or pattern) overlay of the group is laid out over that box - a transparent / outside /
+        # masked-out / zero-opacity / adjustment layer inside the group moves the gradient
+        feats = "gradient-overlay-on-enclosing-group"
     if t2["doc_t"]["mode"] == "CMYK" and set(cc.blend_modes(t2["doc_t"])) & set(cc.NONSEP_UP):
         # root cause outside the compositor: the CMYK wrapper of the non-separable blend functions returns values
         # outside [0,1] (known findings of C12), which breaks hypothesis BOk of the theorems
@@ -453,6 +547,11 @@ def report(ctx, task, res):
         sig = f"{law_prefix(law)}/exception/{r['error']['type']}/{feats}"
         ctx.fail(sig, f"the compositor raises {r['error']['type']} ({r['error']['msg']}) at {r['error']['where']}", law_json(t2),
                  r["error"], "the same composite as for the related input")
+    elif r["mismatch"] and feats == "gradient-overlay-on-enclosing-group":
+        sig = "C13/noop/box-of-enclosing-group/gradient-overlay"
+        ctx.fail(sig, f"a {law['noop']} layer inserted into a group that carries a gradient overlay changes the composite: the overlay is laid "
+                 "out over the group's box, which the inserted layer's rectangle extends", law_json(t2), r["mismatch"],
+                 "the composite of the document without the layer")
     elif r["mismatch"]:
         sig = f"{law_prefix(law)}/{feats}/{r['mismatch']['what']}"
         ctx.fail(sig, f"{law['kind']} law violated by the real compositor ({r['mismatch']['what']})", law_json(t2), r["mismatch"],
@@ -542,20 +641,21 @@ def mechanism(layer):
     return "plain-" + layer.kind
 
 
-def isolate(psd, V):
+def isolate(psd, V, ref=None):
     """layers that violate the viewport law when composited alone (with the groups around them and, for a
     clipping layer, its base) -> (mechanism of the first culprit | None, names)"""
     W, H = psd.width, psd.height
+    ref = ref or (0, 0, W, H)
     culprits = []
 
     def law_fails(keep):
         flt = lambda x: x.is_visible() and (x.is_group() or any(x is k for k in keep))
         try:
-            a = cc.real_composite(psd, layer_filter=flt)
+            a = cc.real_composite(psd, viewport=ref, layer_filter=flt)
             b = cc.real_composite(psd, viewport=V, layer_filter=flt)
         except Exception:
             return True
-        return cc.compare(b, crop(a, (0, 0, W, H), V)) is not None
+        return cc.compare(b, crop(a, ref, V)) is not None
 
     def visit(layers):
         for l in layers:
@@ -612,8 +712,11 @@ def fixtures(ctx, st, limit_area, max_files):
         if bad:
             ctx.fail(f"C13/range/{bad['what']}/fixture/{rel}", "composite of a fixture not finite or outside [0,1]", {"fixture": rel}, bad,
                      "finite values in [0,1]")
-        for cls, V, ref in viewports(ctx.rng, W, H):
-            if cls == "straddling" or ref != canvas:
+        # a viewport of the canvas size at another origin, against a reference that covers both
+        shifted = ("shifted", (1, 1, W + 1, H + 1), (0, 0, W + 2, H + 2))
+        refs = {canvas: full}
+        for cls, V, ref in viewports(ctx.rng, W, H) + [shifted]:
+            if cls == "straddling" or (ref != canvas and cls != "shifted"):
                 continue      # one full-size reference per fixture is enough; straddling is covered by generated documents
             ctx.count(("fixture", rel, V), n=max(1, (V[2] - V[0]) * (V[3] - V[1])))
             ctx.hist("laws", f"fixture-viewport/{cls}")
@@ -623,9 +726,16 @@ def fixtures(ctx, st, limit_area, max_files):
                 ctx.fail(f"C13/viewport/{cls}/exception/{type(e).__name__}/fixture/{rel}", f"composite(viewport={V}) raises {type(e).__name__}: {str(e)[:120]}",
                          {"fixture": rel, "viewport": list(V)}, type(e).__name__, "the crop of the full composite")
                 continue
-            mm = cc.compare(sub, crop(full, canvas, V))
+            if ref not in refs:
+                try:
+                    refs[ref] = cc.real_composite(psd, viewport=ref)
+                except Exception as e:
+                    ctx.fail(f"C13/viewport/{cls}/exception/{type(e).__name__}/fixture/{rel}", f"composite(viewport={ref}) raises {type(e).__name__}",
+                             {"fixture": rel, "viewport": list(ref)}, type(e).__name__, "a composite")
+                    continue
+            mm = cc.compare(sub, crop(refs[ref], ref, V))
             if mm is not None:
-                mech, layers = isolate(psd, V)
+                mech, layers = isolate(psd, V, ref)
                 ctx.hist("fixture_viewport_failures", f"{mech}:{rel}")
                 if mech is None:
                     ctx.fail(f"C13/viewport/{cls}/fixture/{rel}/{mm['what']}",
@@ -654,7 +764,11 @@ def fixtures(ctx, st, limit_area, max_files):
 # the check
 # ------------------------------------------------------------------------------------------
 def run(ctx: core.Run):
-    ctx.prove(["PsdVerif.Props.C13"])
+    import sys
+    import c13_fx
+    import extract_fx
+    ctx.regenerate(extract_fx.gen_composite_fx)
+    ctx.prove(["PsdVerif.Props.C13", "PsdVerif.Props.C13Fx"])
     st = {"corr_da": 0.0, "corr_dc": 0.0}
     rng = ctx.rng
     corpus = json.loads((core.VERIF / "harness" / "corpus" / "C13.json").read_text())
@@ -691,6 +805,13 @@ def run(ctx: core.Run):
         process(ctx, tasks[k:k + 4000], st)
     ctx.sample({"law": tasks[0]["law"], "doc": {"size": docs[0]["size"], "mode": docs[0]["mode"], "features": cc.feature_sig(docs[0])}})
     fixtures(ctx, st, 700 * 700 if ctx.quick else 1400 * 1400, 30 if ctx.quick else None)
+    # the wider search: effect-carrying documents, effect-carrying no-op layers, laws under layer filters, API edits
+    ftasks = c13_fx.make_tasks(ctx, sys.modules[__name__], ctx.quick)
+    for t in ftasks:
+        ctx.hist("wider_search", ("fx:" if t["law"].get("fx") else "filter:" if t["law"].get("filter") else "") + t["law"]["kind"])
+    for k in range(0, len(ftasks), 4000):
+        process(ctx, ftasks[k:k + 4000], st)
+    c13_fx.stroke_findings(ctx, sys.modules[__name__])
 
     ctx.extra["max_abs_diff_model_vs_impl_on_transformed_inputs"] = {"alpha_shape": st["corr_da"], "premultiplied_colour": st["corr_dc"]}
     ctx.extra["tolerances"] = {"shape_alpha": cc.TOL_ALPHA, "premultiplied_colour": cc.TOL_COLOR, "alpha_min_for_colour": cc.ALPHA_MIN,
@@ -725,17 +846,31 @@ def run(ctx: core.Run):
     ctx.model_coverage = C11_model_coverage()
     ctx.notes += NOTES
     if ctx.tier == "thorough":
-        ctx.recheck(["PsdVerif.Props.C13"])
+        ctx.recheck(["PsdVerif.Props.C13", "PsdVerif.Props.C13Fx"])
 
 
 def C11_model_coverage():
     return {"modelled": ["as C11: composite() with viewport / layer_filter, Compositor, _get_group viewport restriction and paste back, "
-                         "early exits of apply, backdrop removal, _clip, _divide"],
-            "opaque": ["float32 rounding", "fixtures with effects / vector masks / fills / adjustments: relations checked on the real code only",
-                       "channel decompression and the reader/writer (C04, C01)"]}
+                         "early exits of apply, backdrop removal, _clip, _divide",
+                         "as C11 (Model/CompositeFx.lean): fill layers, vector masks, the vector stroke, overlay effects, stroke effects "
+                         "(the drawing a parameter), adjustment layers, force"],
+            "opaque": ["float32 rounding", "what is drawn for fills / vector masks / strokes / effects (aggdraw, scipy, skimage): a parameter of the model; "
+                       "the relations on documents and fixtures that carry them are checked on the real code",
+                       "channel decompression and the reader/writer (C04, C01)", "the API edit operations themselves (C09, C15, C16): only their "
+                       "effect on the composite before / after save -> reopen is observed here"]}
 
 
 NOTES = [
+    "proved (Props/C13Fx.lean) about the effect-carrying model (Model/CompositeFx.lean): result_in_unit_interval_fx, hidden_noop_fx, "
+    "outside_viewport_noop_fx, adjustment_noop, zero_opacity_noop_fx (pixel / fill layers and groups with any overlays AND stroke effects: "
+    "the overlays are painted with the layer's alpha, which carries the layer opacity, and the stroke effect's opacity is multiplied by the "
+    "layer opacity - repaired 8d9362f), zero_opacity_overlay_needs_layer_opacity (the variant in which the overlay's alpha omits the layer "
+    "opacity paints: decided witness), zero_opacity_stroke_effect_needs_layer_opacity (pre-repair witness), transparent_noop_fx (partial: no "
+    "stroke effects) + transparent_stroke_effect_paints, viewport_is_crop_fx (partial: what is drawn for the stroke effects does not depend "
+    "on the viewport, fxListConst) + viewport_stroke_effect_differs (known finding), noop_insert_fx, outside_pixel_is_noop_fx",
+    "wider search (c13_fx.py): the laws on effect-carrying documents; no-op layers that carry effects; the laws under custom layer filters "
+    "(accept all / accept named hidden layers) on nested groups with hidden members of every relative extent; save -> reopen after an API "
+    "edit (clipping flag, visibility, blend mode, opacity) at every position of clip runs of length 1-3 and on random documents",
     "proved (Props/C13.lean): result_in_unit_interval, hidden_noop, outside_viewport_noop, transparent_noop, zero_opacity_noop, "
     "viewport_is_crop_covered, passthrough_group_transparent_inside, passthrough_group_transparent",
     "correspondence-only: the general viewport law beyond viewport_is_crop_covered (a layer that meets the two viewports in DIFFERENT "
